@@ -15,8 +15,26 @@ From PV Require Import Regex Base LexTables NodeModel ParserBase ParserDecl Pars
         out+=f"(* {comment} *)\nTheorem {name} :\n{stmt}\nProof. exact ex_{name}. Qed.\nPrint Assumptions {name}.\n\n"
     out+=extra
     open(f'/verif/coq/props/{prop}.v','w').write(out)
-mk("C03","declaration ASTs encode C declarator semantics for every declared name","DeclExamples")
-mk("C05","statement ASTs mirror C's statement nesting and source order","StmtExamples")
+mk("C03","declaration ASTs encode C declarator semantics for every declared name","DeclExamples"," AstSpec DeclProofs",
+'''(* _type_modify_decl splices the modifier chain between the declarator's own chain and its TypeDecl,
+   for a declarator chain and a modifier chain (pointer prefix, array / function suffix) of ANY length *)
+Theorem C03_modify_splice : forall (P: Type) ld fs co lm fuel s, lm <> [] -> (length ld + length lm <= fuel)%nat ->
+  type_modify_decl P fuel (build P ld (typedecl P fs co)) (build P lm VNone) s
+  = Ok (build P (ld ++ lm) (typedecl P fs co), s).
+Proof. exact modify_splice. Qed.
+Print Assumptions C03_modify_splice.
+''')
+mk("C05","statement ASTs mirror C's statement nesting and source order","StmtExamples"," AstSpec StmtProofs",
+'''(* fix_switch_cases: for a switch body of ANY length whose label chains have ANY depth, the regrouped
+   body is exactly: statements under the nearest preceding label, consecutive labels as siblings,
+   statements before the first label in front (regroup_spec) - nothing lost, duplicated or reordered *)
+Theorem C05_switch_regroup_correct : forall (P: Type) cs items cur fuel st,
+  Forall (child_ok P) cs -> Forall (fun c => (child_depth P c < fuel)%nat) cs ->
+  switch_regroup P fuel (map (child_node P) cs) (fst (state_of P items cur)) (snd (state_of P items cur)) st
+  = Ok (regroup_spec P cs items cur, st).
+Proof. exact switch_regroup_correct. Qed.
+Print Assumptions C05_switch_regroup_correct.
+''')
 mk("C06","parse() either returns a FileAST or raises ParseError - nothing else","CrashExamples"," LexerProofs",
 '''(* termination of the lexing half: tokenising any text finishes within |text|+1 iterations *)
 Theorem C06_lex_terminates : forall text file,
